@@ -146,7 +146,7 @@ def write_replay(prop, obj):
 
 # ---------------------------------------------------------------- evidence
 def write_evidence(prop, tier, level, coverage, wall_s, violations=0, assumptions=()):
-    d = os.path.join(VERIF, "evidence")
+    d = os.environ.get("VERIF_EVIDENCE_DIR") or os.path.join(VERIF, "evidence")
     os.makedirs(d, exist_ok=True)
     ev = {
         "property_id": prop,
